@@ -160,4 +160,59 @@ TokText(m, p, tk) ==
 RECURSIVE StrfText(_, _, _, _)
 StrfText(m, p, toks, k) == IF k > Len(toks) THEN <<>> ELSE TokText(m, p, toks[k]) \o StrfText(m, p, toks, k + 1)
 HasTok(toks, ds) == \E k \in 1..Len(toks) : toks[k].d \in ds
+
+
+\* ---- truncated forms (ISO 8601:2000; only when the parser is told to allow them) --------------
+\* gt: [tdform, tform, zform, yc (year of century), yd (year of decade), mo, dom, doy, woy, dow, hh, mi, ss, ds, sep, zh, zm]
+\* (-1 = the field is not part of the form)
+TruncDateText(gt) ==
+  LET f == gt.tdform IN
+  CASE f = "-YYMM"    -> <<CHMinus>> \o Digits(gt.yc, 2) \o Digits(gt.mo, 2)
+    [] f = "-YY"      -> <<CHMinus>> \o Digits(gt.yc, 2)
+    [] f = "--MMDD"   -> <<CHMinus, CHMinus>> \o Digits(gt.mo, 2) \o Digits(gt.dom, 2)
+    [] f = "--MM"     -> <<CHMinus, CHMinus>> \o Digits(gt.mo, 2)
+    [] f = "---DD"    -> <<CHMinus, CHMinus, CHMinus>> \o Digits(gt.dom, 2)
+    [] f = "YYMMDD"   -> Digits(gt.yc, 2) \o Digits(gt.mo, 2) \o Digits(gt.dom, 2)
+    [] f = "YYDDD"    -> Digits(gt.yc, 2) \o Digits(gt.doy, 3)
+    [] f = "-DDD"     -> <<CHMinus>> \o Digits(gt.doy, 3)
+    [] f = "YYWwwD"   -> Digits(gt.yc, 2) \o <<CHW>> \o Digits(gt.woy, 2) \o Digits(gt.dow, 1)
+    [] f = "YYWww"    -> Digits(gt.yc, 2) \o <<CHW>> \o Digits(gt.woy, 2)
+    [] f = "-zWwwD"   -> <<CHMinus>> \o Digits(gt.yd, 1) \o <<CHW>> \o Digits(gt.woy, 2) \o Digits(gt.dow, 1)
+    [] f = "-zWww"    -> <<CHMinus>> \o Digits(gt.yd, 1) \o <<CHW>> \o Digits(gt.woy, 2)
+    [] f = "-WwwD"    -> <<CHMinus, CHW>> \o Digits(gt.woy, 2) \o Digits(gt.dow, 1)
+    [] f = "-Www"     -> <<CHMinus, CHW>> \o Digits(gt.woy, 2)
+    [] f = "-W-D"     -> <<CHMinus, CHW, CHMinus>> \o Digits(gt.dow, 1)
+    [] f = "-YY-MM"   -> <<CHMinus>> \o Digits(gt.yc, 2) \o <<CHMinus>> \o Digits(gt.mo, 2)
+    [] f = "--MM-DD"  -> <<CHMinus, CHMinus>> \o Digits(gt.mo, 2) \o <<CHMinus>> \o Digits(gt.dom, 2)
+    [] f = "YY-MM-DD" -> Digits(gt.yc, 2) \o <<CHMinus>> \o Digits(gt.mo, 2) \o <<CHMinus>> \o Digits(gt.dom, 2)
+    [] f = "YY-DDD"   -> Digits(gt.yc, 2) \o <<CHMinus>> \o Digits(gt.doy, 3)
+    [] f = "YY-Www-D" -> Digits(gt.yc, 2) \o <<CHMinus, CHW>> \o Digits(gt.woy, 2) \o <<CHMinus>> \o Digits(gt.dow, 1)
+    [] f = "YY-Www"   -> Digits(gt.yc, 2) \o <<CHMinus, CHW>> \o Digits(gt.woy, 2)
+    [] f = "-z-WwwD"  -> <<CHMinus>> \o Digits(gt.yd, 1) \o <<CHMinus, CHW>> \o Digits(gt.woy, 2) \o Digits(gt.dow, 1)
+    [] f = "-z-Www"   -> <<CHMinus>> \o Digits(gt.yd, 1) \o <<CHMinus, CHW>> \o Digits(gt.woy, 2)
+    [] f = "-Www-D"   -> <<CHMinus, CHW>> \o Digits(gt.woy, 2) \o <<CHMinus>> \o Digits(gt.dow, 1)
+    [] OTHER -> <<>>                                           \* "" : no date at all (time only)
+TruncTimeText(gt) ==
+  CASE gt.tform = "-mmss"  -> <<CHMinus>> \o Digits(gt.mi, 2) \o Digits(gt.ss, 2) \o DecText(gt)
+    [] gt.tform = "-mm:ss" -> <<CHMinus>> \o Digits(gt.mi, 2) \o <<CHColon>> \o Digits(gt.ss, 2) \o DecText(gt)
+    [] gt.tform = "-mm"    -> <<CHMinus>> \o Digits(gt.mi, 2) \o DecText(gt)
+    [] gt.tform = "--ss"   -> <<CHMinus, CHMinus>> \o Digits(gt.ss, 2) \o DecText(gt)
+    [] OTHER -> TimeText(gt)
+TruncText(gt) ==
+  IF gt.tform = "none" THEN TruncDateText(gt)
+  ELSE TruncDateText(gt) \o <<CHT>> \o TruncTimeText(gt) \o (IF gt.zform = "none" THEN <<>> ELSE ZoneText(gt.zh, gt.zm, gt.zform))
+\* which fields the form spells
+TruncFields(gt) ==
+  LET f == gt.tdform  t == gt.tform
+      has(x, forms) == IF f \in forms THEN x ELSE -1
+  IN [yc  |-> has(gt.yc, {"-YYMM", "-YY", "YYMMDD", "YYDDD", "YYWwwD", "YYWww", "-YY-MM", "YY-MM-DD", "YY-DDD", "YY-Www-D", "YY-Www"}),
+      yd  |-> has(gt.yd, {"-zWwwD", "-zWww", "-z-WwwD", "-z-Www"}),
+      mo  |-> has(gt.mo, {"-YYMM", "--MMDD", "--MM", "YYMMDD", "-YY-MM", "--MM-DD", "YY-MM-DD"}),
+      dom |-> has(gt.dom, {"--MMDD", "---DD", "YYMMDD", "--MM-DD", "YY-MM-DD"}),
+      doy |-> has(gt.doy, {"YYDDD", "-DDD", "YY-DDD"}),
+      woy |-> has(gt.woy, {"YYWwwD", "YYWww", "-zWwwD", "-zWww", "-WwwD", "-Www", "YY-Www-D", "YY-Www", "-z-WwwD", "-z-Www", "-Www-D"}),
+      dow |-> has(gt.dow, {"YYWwwD", "-zWwwD", "-WwwD", "-W-D", "YY-Www-D", "-z-WwwD", "-Www-D"}),
+      hh  |-> IF t \in {"hms-b", "hm-b", "h", "hms-e", "hm-e"} THEN gt.hh ELSE -1,
+      mi  |-> IF t \in {"hms-b", "hm-b", "hms-e", "hm-e", "-mmss", "-mm:ss", "-mm"} THEN gt.mi ELSE -1,
+      ss  |-> IF t \in {"hms-b", "hms-e", "-mmss", "-mm:ss", "--ss"} THEN gt.ss ELSE -1]
 =============================================================================
